@@ -24,21 +24,7 @@ Definition untime (e : ep) : ep :=
 
 (* ---------- sets of datagrams, kept sorted (canonical representation) ---------- *)
 
-Definition frag_key (f : frag) : list N := let '(a, b, c) := f in [a; b; c].
-Definition rec_key (r : rec) : list N :=
-  r_ep r :: match r_body r with
-            | Hs h m o l t => [0; h; m; o; l; t]
-            | Ack fs => 1 :: N.of_nat (length fs) :: flat_map frag_key fs
-            end.
 Definition dgram_key (d : dgram) : list N := N.of_nat (length d) :: flat_map rec_key d.
-
-Fixpoint lcmp (a b : list N) : comparison :=
-  match a, b with
-  | [], [] => Eq
-  | [], _ => Lt
-  | _, [] => Gt
-  | x :: a', y :: b' => match N.compare x y with Eq => lcmp a' b' | c => c end
-  end.
 
 Fixpoint dins (d : dgram) (l : list dgram) : list dgram :=
   match l with
@@ -53,10 +39,48 @@ Definition dins_all (ds l : list dgram) : list dgram := fold_left (fun acc d => 
 
 (* ---------- states and moves ---------- *)
 
+(* ACK datagrams are not remembered individually: the adversary may hand an endpoint an ACK (of
+   epoch 2, or 3 once its sender writes in epoch 3) that acknowledges ANY non-empty set of protected
+   handshake fragments its sender has received so far - every ACK the sender ever emitted is of
+   that form, because an ACK lists records that were received, and what has been received only
+   grows *)
+Definition is_ack_dgram (d : dgram) : bool :=
+  forallb (fun r => match r_body r with Ack _ => true | Hs _ _ _ _ _ => false end) d.
+Definition hs_dgrams (ds : list dgram) : list dgram := filter (fun d => negb (is_ack_dgram d)) ds.
+
+(* the protected handshake fragments the peer of a [client] endpoint can ever send *)
+Definition peer_frags (c : cfg) (client : bool) : list frag :=
+  fold_left (fun acc r => if 2 <=? r_ep r then match rec_frag r with Some f => fadd f acc | None => acc end else acc)
+            (flat_map (fun fd => if client
+                                 then (if N.eqb (fst fd) F2 || N.eqb (fst fd) F4 || N.eqb (fst fd) FN then snd fd else [])
+                                 else (if N.eqb (fst fd) F1 || N.eqb (fst fd) F3 || N.eqb (fst fd) F5 then snd fd else []))
+                      (c_fl c)) [].
+
+(* ... and those of them the endpoint has received: in a message already reassembled, or waiting in
+   the fragment buffer *)
+Definition rcvd (c : cfg) (e : ep) : list frag :=
+  filter (fun f => let '(m, fo, _) := f in (m <? e_fbcur e) || existsb (same_slot m fo) (e_frags e))
+         (peer_frags c (e_client e)).
+
+Fixpoint sublists {A} (l : list A) : list (list A) :=
+  match l with
+  | [] => [[]]
+  | x :: l' => let r := sublists l' in map (cons x) r ++ r
+  end.
+
+(* the ACKs an endpoint may have sent: (epoch, fragments) *)
+Definition acks_of (c : cfg) (e : ep) : list (N * list frag) :=
+  flat_map (fun epo => if (epo <=? e_lepoch e) then
+                         flat_map (fun fs => match fs with [] => [] | _ => [(epo, fs)] end) (sublists (rcvd c e))
+                       else []) [2; 3].
+
+Definition ack_eqb (a b : N * list frag) : bool := N.eqb (fst a) (fst b) &&& lfeqb (snd a) (snd b).
+Definition mk_ack (a : N * list frag) : dgram := [{| r_ep := fst a; r_body := Ack (snd a); r_size := 0 |}].
+
 Record ustate := {
   u_c : ep; u_s : ep;
   u_rc : bool; u_rs : bool;      (* the endpoint sent something less than InitialRetransmitInterval/2 ago *)
-  u_nc : list dgram;             (* the datagrams the client has sent so far *)
+  u_nc : list dgram;             (* the handshake datagrams the client has sent so far *)
   u_ns : list dgram
 }.
 
@@ -68,48 +92,55 @@ Definition urecent (c : cfg) (r : bool) (e' : ep) : bool :=
 
 Definition uinit (c : cfg) : ustate :=
   {| u_c := untime (ep_init c true); u_s := untime (ep_init c false); u_rc := true; u_rs := true;
-     u_nc := dins_all (snd (ep_start c true)) []; u_ns := dins_all (snd (ep_start c false)) [] |}.
+     u_nc := dins_all (hs_dgrams (snd (ep_start c true))) [];
+     u_ns := dins_all (hs_dgrams (snd (ep_start c false))) [] |}.
 
-Inductive umove := UDeliverToServer (i : nat) | UDeliverToClient (i : nat) | UTimerC | UTimerS | UTick.
+Inductive umove :=
+| UDeliverToServer (i : nat) | UDeliverToClient (i : nat)
+| UAckToServer (a : N * list frag) | UAckToClient (a : N * list frag)
+| UTimerC | UTimerS | UTick.
 
 Definition timer_pending (e : ep) : bool := match next_timer e with Some _ => true | None => false end.
+
+Definition to_server (c : cfg) (s : ustate) (d : dgram) : ustate :=
+  let '(e', out) := on_datagram c (u_s s) d (unow c (u_rs s)) in
+  {| u_c := u_c s; u_s := untime e'; u_rc := u_rc s; u_rs := urecent c (u_rs s) e';
+     u_nc := u_nc s; u_ns := dins_all (hs_dgrams out) (u_ns s) |}.
+Definition to_client (c : cfg) (s : ustate) (d : dgram) : ustate :=
+  let '(e', out) := on_datagram c (u_c s) d (unow c (u_rc s)) in
+  {| u_c := untime e'; u_s := u_s s; u_rc := urecent c (u_rc s) e'; u_rs := u_rs s;
+     u_nc := dins_all (hs_dgrams out) (u_nc s); u_ns := u_ns s |}.
 
 Definition ustep (c : cfg) (s : ustate) (m : umove) : option ustate :=
   match m with
   | UDeliverToServer i =>
-      match nth_error (u_nc s) i with
-      | Some d =>
-          let '(e', out) := on_datagram c (u_s s) d (unow c (u_rs s)) in
-          Some {| u_c := u_c s; u_s := untime e'; u_rc := u_rc s; u_rs := urecent c (u_rs s) e';
-                  u_nc := u_nc s; u_ns := dins_all out (u_ns s) |}
-      | None => None
-      end
+      match nth_error (u_nc s) i with Some d => Some (to_server c s d) | None => None end
   | UDeliverToClient i =>
-      match nth_error (u_ns s) i with
-      | Some d =>
-          let '(e', out) := on_datagram c (u_c s) d (unow c (u_rc s)) in
-          Some {| u_c := untime e'; u_s := u_s s; u_rc := urecent c (u_rc s) e'; u_rs := u_rs s;
-                  u_nc := dins_all out (u_nc s); u_ns := u_ns s |}
-      | None => None
-      end
+      match nth_error (u_ns s) i with Some d => Some (to_client c s d) | None => None end
+  | UAckToServer a =>
+      if existsb (ack_eqb a) (acks_of c (u_c s)) then Some (to_server c s (mk_ack a)) else None
+  | UAckToClient a =>
+      if existsb (ack_eqb a) (acks_of c (u_s s)) then Some (to_client c s (mk_ack a)) else None
   | UTimerC =>
       if timer_pending (u_c s) then
         let '(e', out) := on_timer c (u_c s) in
         Some {| u_c := untime e'; u_s := u_s s; u_rc := u_rc s; u_rs := u_rs s;
-                u_nc := dins_all out (u_nc s); u_ns := u_ns s |}
+                u_nc := dins_all (hs_dgrams out) (u_nc s); u_ns := u_ns s |}
       else None
   | UTimerS =>
       if timer_pending (u_s s) then
         let '(e', out) := on_timer c (u_s s) in
         Some {| u_c := u_c s; u_s := untime e'; u_rc := u_rc s; u_rs := u_rs s;
-                u_nc := u_nc s; u_ns := dins_all out (u_ns s) |}
+                u_nc := u_nc s; u_ns := dins_all (hs_dgrams out) (u_ns s) |}
       else None
   | UTick => Some {| u_c := u_c s; u_s := u_s s; u_rc := false; u_rs := false; u_nc := u_nc s; u_ns := u_ns s |}
   end.
 
-Definition moves_of (s : ustate) : list umove :=
+Definition moves_of (c : cfg) (s : ustate) : list umove :=
   map UDeliverToServer (seq 0 (length (u_nc s))) ++
-  map UDeliverToClient (seq 0 (length (u_ns s))) ++ [UTimerC; UTimerS; UTick].
+  map UDeliverToClient (seq 0 (length (u_ns s))) ++
+  map UAckToServer (acks_of c (u_c s)) ++ map UAckToClient (acks_of c (u_s s)) ++
+  [UTimerC; UTimerS; UTick].
 
 Inductive Reach (c : cfg) : ustate -> Prop :=
 | reach_init : Reach c (uinit c)
@@ -196,7 +227,7 @@ Qed.
 (* ---------- closure computation and the checker ---------- *)
 
 Definition succs (c : cfg) (s : ustate) : list ustate :=
-  flat_map (fun m => match ustep c s m with Some s' => [s'] | None => [] end) (moves_of s).
+  flat_map (fun m => match ustep c s m with Some s' => [s'] | None => [] end) (moves_of c s).
 
 Fixpoint add_new (R : list ustate) (xs : list ustate) (acc : list ustate) : list ustate * list ustate :=
   match xs with
@@ -225,18 +256,30 @@ Definition live_check (fuel K : nat) (c : cfg) : bool :=
   let R := reach_set fuel c in
   closed c R && forallb (live_from K c) R.
 
-Lemma enabled_in_moves c s m s' : ustep c s m = Some s' -> In m (moves_of s).
+Lemma ack_eqb_ok a b : ack_eqb a b = true -> a = b.
 Proof.
-  unfold moves_of. intro H. destruct m as [i | i | | | ]; cbn [ustep] in H.
+  destruct a as [e1 f1], b as [e2 f2]. unfold ack_eqb. cbn [fst snd]. intro H.
+  apply andl_prop in H. destruct H as [H1 H2]. apply N.eqb_eq in H1. apply lfeqb_ok in H2. now subst.
+Qed.
+
+Lemma enabled_in_moves c s m s' : ustep c s m = Some s' -> In m (moves_of c s).
+Proof.
+  unfold moves_of. intro H. destruct m as [i | i | a | a | | | ]; cbn [ustep] in H.
   - apply in_or_app. left. apply in_map. apply in_seq.
     destruct (nth_error (u_nc s) i) eqn:E; [|discriminate].
     assert (i < length (u_nc s))%nat by (apply nth_error_Some; congruence). lia.
   - apply in_or_app. right. apply in_or_app. left. apply in_map. apply in_seq.
     destruct (nth_error (u_ns s) i) eqn:E; [|discriminate].
     assert (i < length (u_ns s))%nat by (apply nth_error_Some; congruence). lia.
-  - apply in_or_app. right. apply in_or_app. right. now left.
-  - apply in_or_app. right. apply in_or_app. right. right. now left.
-  - apply in_or_app. right. apply in_or_app. right. right. right. now left.
+  - do 2 (apply in_or_app; right). apply in_or_app. left.
+    destruct (existsb (ack_eqb a) (acks_of c (u_c s))) eqn:E; [|discriminate].
+    apply existsb_exists in E. destruct E as (x & Hx & He). apply ack_eqb_ok in He. subst x. now apply in_map.
+  - do 3 (apply in_or_app; right). apply in_or_app. left.
+    destruct (existsb (ack_eqb a) (acks_of c (u_s s))) eqn:E; [|discriminate].
+    apply existsb_exists in E. destruct E as (x & Hx & He). apply ack_eqb_ok in He. subst x. now apply in_map.
+  - do 4 (apply in_or_app; right). now left.
+  - do 4 (apply in_or_app; right). right. now left.
+  - do 4 (apply in_or_app; right). right. right. now left.
 Qed.
 
 Lemma succs_complete c s m s' : ustep c s m = Some s' -> In s' (succs c s).
